@@ -30,7 +30,7 @@ STEPS = {
     "shape-assign": "u = x * 1.0\nv = u[0]\nu.shape = (3, 2)\nL = (u * u).sum() + v.sum()",
     "inplace-leaf-view": "xv = x[1]\nL = (xv * y).sum() + x.sum()",
 }
-BETWEEN = ["none", "null_grad", "view", "nonview-op", "inplace", "other-backward"]
+BETWEEN = ["none", "null_grad", "view", "nonview-op", "inplace", "other-backward", "advanced-index", "copying-reshape", "as-setitem-value"]
 M = np.array([True, False, True])
 
 _REC = {"tensors": [], "ops": [], "on": False}
@@ -165,6 +165,22 @@ def run_case(spec, tier):
                         findings.append("leaf was updated in place but its (or its view's) old gradient is still readable")
                     x.clear_graph()
                     del vv
+                elif btw in ("advanced-index", "copying-reshape", "as-setitem-value"):
+                    # non-view uses of the leaf by operations that CAN return views (their output has a non-None .base)
+                    vv = x[0]
+                    if btw == "advanced-index":
+                        t2 = x[:, [0, 2]]
+                    elif btw == "copying-reshape":
+                        t2 = mg.reshape(x[:, ::2], (4,)) if False else x[:, [True, False, True]]
+                    else:
+                        t2 = mg.zeros_like(x)
+                        slot = t2[...]
+                        slot[...] = x
+                    if x.grad is not None or vv.grad is not None:
+                        findings.append("leaf entered a non-view operation (%s) but its (or its view's) old gradient is still readable" % btw)
+                    t2.clear_graph()
+                    x.clear_graph()
+                    del t2, vv
                 elif btw == "other-backward":
                     (x.sum() * 1.0).backward()
                     if x.grad is None:
@@ -279,6 +295,14 @@ try:
             vv = x[0]; x *= 1.0
             if x.grad is not None or vv.grad is not None: bad.append("stale after in-place")
             x.clear_graph(); del vv
+        elif BTW in ("advanced-index", "copying-reshape", "as-setitem-value"):
+            vv = x[0]
+            if BTW == "advanced-index": t2 = x[:, [0, 2]]
+            elif BTW == "copying-reshape": t2 = x[:, [True, False, True]]
+            else:
+                t2 = mg.zeros_like(x); slot = t2[...]; slot[...] = x
+            if x.grad is not None or vv.grad is not None: bad.append("stale after non-view use: " + BTW)
+            t2.clear_graph(); x.clear_graph(); del t2, vv
         elif BTW == "other-backward":
             (x.sum() * 1.0).backward()
     if not np.array_equal(x.data, x0): bad.append("leaf data changed")
